@@ -203,6 +203,18 @@ class Sim:
             self.resident = [n for n in self.resident if n not in res]
             self.wg, self.newrevs = None, []
             return "ok"
+        if o == "abortf":
+            if not self.wg:
+                return "BzrError"
+            r = "ok" if op[1] else "NoSuchFile"
+            if self.wg[1]:
+                self.broken = True
+                return r
+            self.wg, self.newrevs = None, []
+            return r
+        if o == "suspendf":
+            self.broken = True
+            return "NoSuchFile"
         if o == "reopen":
             if self.wg:
                 return "BzrError"
@@ -446,6 +458,24 @@ class _Run:
         if o == "abort":
             repo.abort_write_group()
             return Tag("ok")
+        if o in ("abortf", "suspendf"):
+            # fault injection: every transport operation on upload/ fails while the call runs
+            if not repo.is_in_write_group():
+                repo.abort_write_group()     # raises the usual BzrError
+            up = os.path.join(self.path, ".bzr", "repository", "upload")
+            os.rename(up, up + ".away")
+            try:
+                if o == "abortf":
+                    repo.abort_write_group(suppress_errors=bool(op[1]))
+                else:
+                    repo.suspend_write_group()
+            finally:
+                os.rename(up + ".away", up)
+                if not repo.is_in_write_group():
+                    for f in os.listdir(up):   # the temp file whose delete was made to fail
+                        if f.endswith(".pack") and len(f) == 25:
+                            os.unlink(os.path.join(up, f))
+            return Tag("ok")
         if o == "commit":
             repo.commit_write_group()
             return Tag("ok")
@@ -497,13 +527,22 @@ class _Run:
             except errors.UnresumableWriteGroup:
                 res = Err("UnresumableWriteGroup")
             except AssertionError as e:
-                if op[0] != "resume" or "already in _packs_by_name" not in str(e):
-                    raise
-                res = Err("AssertionError")
+                if op[0] == "start" and "writable index" in str(e):
+                    res = Err("AssertionError:start")
+                elif op[0] != "resume" or "already in _packs_by_name" not in str(e):
+                    res = Err("UNEXPECTED:AssertionError:%s" % str(e)[:80])
+                else:
+                    res = Err("AssertionError")
             except errors.BzrError as e:
                 if type(e) is not errors.BzrError:
                     raise
                 res = Err("BzrError")
+            except Exception as e:
+                if op[0] in ("abortf", "suspendf") and type(e).__name__ == "NoSuchFile":
+                    res = Err("NoSuchFile")
+                else:
+                    # never silent: the oracle reports it, after checking the operations before it
+                    res = Err("UNEXPECTED:%s:%s" % (type(e).__name__, str(e)[:80]))
             vis, names, bad, missing = self.disk()
             sus, tmp, stray = self.upload()
             inwg = self.repo.is_in_write_group()
@@ -515,6 +554,8 @@ class _Run:
             trace.append([res, vis, names != before[1], sus, inwg, view,
                           {"tmp": tmp, "stray": stray, "bad": bad, "missing_files": missing, "tracked": tracked}])
             before = (vis, names, bad, missing)
+            if str(res).startswith("UNEXPECTED:"):
+                break
         return trace
 
 
@@ -552,15 +593,16 @@ def impl(inp):
 def impl_obs(inp, obs):
     if isinstance(obs, Err):
         return obs
-    out, broken = [], False
-    for e in obs["ops"]:
-        if broken:
+    # where the MODEL stops making claims (its broken flag) only [result, visible, names changed] is compared
+    out, sim = [], Sim(inp["fmt"])
+    for op, e in zip(inp["ops"], obs["ops"]):
+        if sim.broken:
             out.append(Tag("broken"))
-        elif isinstance(e[0], Err) and str(e[0]) in ("BzrCheckError:finish", "AssertionError"):
-            out.append(e[:3])
-            broken = True
-        else:
-            out.append(e[:6])
+            continue
+        if op[0] in ("ins", "suspend", "suspendf") and sim.wg is None:
+            raise ValueError("script leaves the modelled domain: %r outside a write group" % (op,))
+        sim.step(op)
+        out.append(e[:3] if sim.broken else e[:6])
     return out
 
 
@@ -574,7 +616,10 @@ def _op(op):
         return "(Ins %s)" % coq_N(op[1])
     if o == "resume":
         return "(Resume %s)" % coq_list(op[1], _tok)
-    return {"start": "Start", "abort": "Abort", "suspend": "Suspend", "commit": "Commit", "reopen": "Reopen"}[o]
+    if o == "abortf":
+        return "(AbortF %s)" % ("true" if op[1] else "false")
+    return {"start": "Start", "abort": "Abort", "suspend": "Suspend", "commit": "Commit", "reopen": "Reopen",
+            "suspendf": "SuspendF"}[o]
 
 
 def model_term(inp):
@@ -584,12 +629,45 @@ def model_term(inp):
 # --------------------------------------------------------------------------
 # the property itself, on the implementation
 # --------------------------------------------------------------------------
-def _check_trace(ops, tr):
+FALLBACK_ITEMS = {1, 11, 21, 30, 40, 41, 42, 51}
+
+
+def _unreadable(fmt, vis):
+    """2a: every visible revision must be fully readable: inventory, both chk roots, and every text its inventory names
+    -- except entries it shares with a present inventory whose revision is absent (a parent inventory kept for
+    stacking; exactly the exception of theorem C06_accepts_only_complete_2a).  pack-0.92 has no such check."""
+    if fmt == "knit":
+        return None
+    have = set(vis) | (FALLBACK_ITEMS if fmt == "2a-stacked" else set())
+    for r in (1, 2, 3, 4):
+        if r not in vis:
+            continue
+        for k in (10 + r, 20 + r, 30):
+            if k not in have:
+                return "revision %d is visible but its inventory / chk page %d is not" % (r, k)
+        for t in ENTRIES[20 + r]:
+            if t in have:
+                continue
+            if not any(q in have and (q - 10) not in have and t in ENTRIES[q + 10] for q in (11, 12, 13, 14) if q != 10 + r):
+                return "revision %d is visible but text %d named by its inventory is not (cannot be read back)" % (r, t)
+    return None
+
+
+def _check_trace(fmt, ops, tr):
     prev_vis = []
     wgview = None
+    prev_inwg = False
     for i, (op, e) in enumerate(zip(ops, tr)):
         res, vis, changed, sus, inwg, view, ex = e
         where = "after op %d %r: " % (i, op)
+        if str(res).startswith("UNEXPECTED:"):
+            return where + "unexpected exception " + str(res)[11:]
+        if op[0] == "start" and not prev_inwg and isinstance(res, Err):
+            return where + "the object cannot start a write group (%s)" % res
+        prev_inwg = inwg
+        u = _unreadable(fmt, vis)
+        if u:
+            return where + u
         if ex["bad"]:
             return where + "visible records cannot be extracted: %r" % (ex["bad"],)
         if ex["missing_files"]:
@@ -602,6 +680,8 @@ def _check_trace(ops, tr):
             exp = sorted(set(prev_vis) | set(wgview or []))
             if sorted(set(vis)) != exp:
                 return where + "commit made %r visible; visible before + write group content is %r" % (vis, exp)
+        if op[0] == "abortf" and str(res) in ("ok", "NoSuchFile") and inwg:
+            return where + "abort left a write group open"
         if op[0] == "abort" and not isinstance(res, Err):
             if ex["tmp"] or ex["stray"] or inwg:
                 return where + "abort left files in upload/ or a write group open: %r" % (ex,)
@@ -617,7 +697,7 @@ def oracle(inp, obs):
         return "driver error " + str(obs)
     for which in ("ops", "twin"):
         if obs[which] is not None:
-            v = _check_trace(inp[which], obs[which])
+            v = _check_trace(inp["fmt"], inp[which], obs[which])
             if v:
                 return which + ": " + v
     if obs["twin"] is not None:
@@ -633,25 +713,29 @@ def oracle(inp, obs):
 
 def _sim_facts(ops, fmt):
     s = Sim(fmt)
-    lost = stale = asserted = False
+    lost = stale = asserted = faultres = False
     for op in ops:
+        if op[0] == "abortf" and s.wg and s.wg[1] and not s.broken:
+            faultres = True
         if op[0] == "commit" and s.wg and not s.broken:
             tm = s.true_missing()
             if tm and not s.mcp:
                 lost = True
             if sorted(s.mcp) != tm and s.mcp:
                 stale = True
-        if op[0] in ("ins", "suspend") and not s.wg:
+        if op[0] in ("ins", "suspend", "suspendf") and not s.wg:
             break
         if s.step(op) == "AssertionError":
             asserted = True
-    return lost, stale, asserted
+    return lost, stale, asserted, faultres
 
 
 def finding_matches(fid, inp, obs, why):
     facts = [_sim_facts(inp[w], inp["fmt"]) for w in ("ops", "twin") if inp.get(w) is not None]
     if fid == "C06-resume-again-on-same-object":
         return any(f[2] for f in facts)
+    if fid == "C06-abort-fault-skips-resumed-packs":
+        return any(f[3] for f in facts)
     if inp["fmt"] != "knit":
         return False
     if fid == "C06-knit-stale-missing-parents":
@@ -686,7 +770,7 @@ def _gen_ops(rng, fmt, n, sim=None, allow_end=True):
         if sim.broken:
             # the model stops here; keep driving the real object so the oracle sees what leaks
             # (after the resume AssertionError the object cannot even start a write group: stop)
-            if last[0] == "BzrCheckError:finish":
+            if last[0] == "BzrCheckError:finish" or ops[-1][0] in ("abortf", "suspendf"):
                 for op in (["abort"], ["start"], ["ins", rng.choice([41, 42, 51])], ["commit"]):
                     ops.append(op)
             break
@@ -736,14 +820,66 @@ def _gen_ops(rng, fmt, n, sim=None, allow_end=True):
             new = tuple(sim.wg[0])
             clash = new and (new in sim.upload or new in sim.listed or new in used_names)
             y = rng.random()
-            if y < 0.45 and not clash:
+            if y < 0.42 and not clash:
                 emit(["commit"])
-            elif y < 0.80 and not clash:
+            elif y < 0.74 and not clash:
                 r = emit(["suspend"])
                 used_names.update(tuple(t) for t in r)
+            elif y < 0.77:
+                emit(["suspendf"])
+            elif y < 0.88 and (not sim.wg[1] or _listed("C06-abort-fault-skips-resumed-packs")):
+                emit(["abortf", rng.random() < 0.6])
             else:
                 emit(["abort"])
     return ops, sim
+
+
+def _listed(fid):
+    """A finding's witnesses are generated only once the maintainer has listed it (any status) in
+    known_findings.json -- until then the check would print a VIOLATION for it on every run."""
+    if fid not in _state.setdefault("listed", {}):
+        import json
+        try:
+            data = json.load(open(os.path.join(os.path.dirname(__file__), "..", "..", "known_findings.json")))
+            _state["listed"][fid] = any(e.get("id") == fid for e in data.get("findings", []))
+        except Exception:
+            _state["listed"][fid] = False
+    return _state["listed"][fid]
+
+
+def _gen_chain(rng, fmt):
+    """One write group adding a CHAIN of new revisions that lacks a text / chk page of a NON-TIP revision
+    (_check_new_inventories must treat a parent that is itself new as interesting), optionally split by a
+    suspend / reopen / resume; then the missing record is supplied and the group committed."""
+    chains = [(2, 4), (3, 4)] if fmt == "2a-stacked" else [(1, 2), (1, 3), (1, 2, 4), (1, 3, 4), (2, 4), (1, 2, 3, 4)]
+    chain = rng.choice(chains)
+    items = []
+    for r in chain:
+        items += [k for k in _rev_items(fmt, r) if k not in items]
+    if fmt == "2a-stacked":
+        items = [k for k in items if k not in FALLBACK_ITEMS or k == 30] + [11, 21]
+    nontip = [k for r in chain[:-1] for k in REV_TEXTS[r] + ([20 + r] if fmt != "knit" and rng.random() < 0.3 else [])
+              if k in items]
+    drop = rng.choice(nontip) if nontip else None
+    body = [k for k in items if k != drop]
+    rng.shuffle(body)
+    ops = [["start"]]
+    cut = rng.randint(1, len(body) - 1) if rng.random() < 0.4 else None
+    for i, k in enumerate(body):
+        if i == cut:
+            ops += [["suspend"]] + ([["reopen"]] if rng.random() < 0.6 else []) + [["resume", [body[:cut]]]]
+        ops.append(["ins", k])
+    ops.append(["commit"])
+    if drop is not None and rng.random() < 0.7:
+        ops += [["ins", drop], ["commit"]]
+    else:
+        ops.append(["abort"])
+    s = Sim(fmt)
+    for op in ops:            # keep only scripts inside the modelled domain
+        if s.broken or (op[0] == "ins" and s.wg is None):
+            return None
+        s.step(op)
+    return {"fmt": fmt, "ops": ops, "twin": None}
 
 
 def _twin_sr(rng, fmt):
@@ -785,7 +921,7 @@ def _twin_abort(rng, fmt):
             if s2.step(["commit"]) != "BzrCheckError":
                 continue
             mid.append(["commit"])
-        mid.append(["abort"])
+        mid.append(["abortf", rng.random() < 0.6] if rng.random() < 0.5 else ["abort"])
         post = [["start"]]
         for k in rng.sample(items_of(fmt), rng.randint(1, 3)):
             if k not in view and ["ins", k] not in post:
@@ -797,7 +933,11 @@ def _twin_abort(rng, fmt):
 
 def corpus():
     k = "knit"
-    return [
+    extra = []
+    if _listed("C06-abort-fault-skips-resumed-packs"):
+        extra.append({"fmt": "2a", "ops": [["start"], ["ins", 51], ["suspend"], ["resume", [[51]]], ["ins", 41],
+                                           ["abortf", True], ["abort"], ["start"], ["ins", 52], ["commit"]], "twin": None})
+    return extra + [
         # repaired by /repo 3775d0a (was finding C06-knit-resume-forgets-missing-parents): the resumed commit must be
         # a clean refusal, the group stays usable, nothing of it leaks; reverting the repair fails these two cases
         {"fmt": k, "ops": [["start"], ["ins", 43], ["suspend"], ["reopen"], ["resume", [[43]]], ["ins", 42], ["commit"],
@@ -812,6 +952,16 @@ def corpus():
          "twin": None},
         {"fmt": "2a", "ops": [["start"], ["ins", 41], ["suspend"], ["start"], ["ins", 42], ["suspend"], ["resume", [[42]]],
                               ["suspend"], ["resume", [[41], [42]]]], "twin": None},
+        # faulting abort (delete of the new pack fails), with and without suppress_errors: nothing stays visible,
+        # the object starts its next group
+        {"fmt": k, "ops": [["start"], ["ins", 41], ["ins", 42], ["abortf", True], ["start"], ["ins", 51], ["commit"]],
+         "twin": [["start"], ["ins", 51], ["commit"]], "tail": 3, "twin_kind": "aborted group"},
+        {"fmt": "2a", "ops": [["start"], ["ins", 1], ["commit"], ["abortf", False], ["start"], ["ins", 41], ["commit"]],
+         "twin": None},
+        {"fmt": "2a", "ops": [["start"], ["ins", 41], ["suspendf"], ["abort"], ["start"], ["ins", 42], ["commit"]], "twin": None},
+        # chain of two new revisions lacking a text of the older one: must be refused
+        {"fmt": "2a", "ops": [["start"]] + [["ins", x] for x in (1, 11, 21, 30, 40, 41, 2, 12, 22, 43)] + [["commit"], ["ins", 42],
+                              ["commit"]], "twin": None},
         # plain behaviour
         {"fmt": k, "ops": [["start"], ["ins", 43], ["commit"], ["ins", 41], ["commit"]], "twin": None},
         {"fmt": "2a", "ops": [["start"], ["ins", 1], ["commit"], ["ins", 11], ["commit"], ["ins", 21], ["ins", 30], ["commit"],
@@ -825,12 +975,16 @@ def corpus():
 
 
 def cases(rng, tier):
-    n_rand, n_twin = (300, 90) if tier == "quick" else (2600, 700)
+    n_rand, n_twin, n_chain = (220, 70, 50) if tier == "quick" else (2400, 700, 400)
     fm = ["2a", "2a-stacked", "knit"]
     for i in range(n_rand):
         fmt = fm[i % 3]
         ops, _ = _gen_ops(rng, fmt, rng.randint(4, 16))
         yield {"fmt": fmt, "ops": ops, "twin": None}
+    for i in range(n_chain):
+        c = _gen_chain(rng, fm[i % 3] if i % 4 else "2a")
+        if c:
+            yield c
     for i in range(n_twin):
         fmt = fm[i % 3]
         c = (_twin_sr if i % 2 == 0 else _twin_abort)(rng, fmt)
@@ -876,7 +1030,7 @@ def shrink(inp, fails):
             s = Sim(inp["fmt"])
             ok = True
             for op in cand["ops"]:
-                if op[0] in ("ins", "suspend") and s.wg is None or op[0] == "reopen" and s.wg is not None:
+                if op[0] in ("ins", "suspend", "suspendf") and s.wg is None or op[0] == "reopen" and s.wg is not None:
                     ok = False
                     break
                 if op[0] == "ins" and op[1] in s.view():
